@@ -164,6 +164,8 @@ CONSTRAINED = [
     "rule k3{ reactant r1{ O labeled o1 H labeled h1 single bond to o1 } constraints{ ! r1 is aromatic || "
     "( r1.charge =0 && r1.formula is CH4O ) } break bond(o1,h1) increase number of radical (o1) "
     "increase number of radical (h1) }",
+    "rule k4{ reactant r1{ C. labeled c1 {has 1 radical electrons, in ring of size >3} C labeled c2 single bond to c1 } "
+    "modify number of radical (c1, 12) increase number of radical (c2) }",
 ]
 
 
